@@ -7,8 +7,9 @@ SPEC = dict(
                "(means sorted, weights > 0, min <= first mean, last mean <= max, total = sum of weights, >= 1 centroid; plus "
                "unit_ends_tight -- a unit first/last centroid sits on min/max -- where a theorem needs it): rank in [0,1], 0 below "
                "min, 1 above max, non-decreasing; quantile in [min,max], min at 0, max at 1, non-decreasing; cdf = ranks ++ [1] "
-               "for every strictly increasing split list including [], pmf sums to 1 and is non-negative; rank(quantile q) within "
-               "an explicit multiple of the straddling centroid weights of q; total_weight = number of finite values offered "
+               "for every strictly increasing split list including [], pmf sums to 1 and is non-negative; |rank(quantile q) - q| <= "
+               "(w_i + w_(i+1)) / (2 total) for the centroids whose centres straddle q*total when the means are pairwise distinct, and "
+               "<= (weight of all centroids sharing a mean with one of them) / total for EVERY well-formed view; total_weight = number of finite values offered "
                "summed over merges and min/max exact for every history whose merge passes satisfy the merge relation. The model "
                "never reaches a panic site (Stuck) on a well-formed view. Tie: the crate is replayed on crafted images (heavy "
                "first/last centroids, duplicates, single centroids, power-of-two totals that put q*W on every branch boundary) "
@@ -17,8 +18,8 @@ SPEC = dict(
                "valid_merge, and the property itself (range, end values, monotonicity up to 4 ulp, cdf/pmf consistency, exact "
                "total/min/max) is evaluated on the crate's observations alone, in debug and release builds.",
     level_note="The theorems are about the exact-rational model. Monotonicity of the binary64 evaluation is not proved (it can fail "
-               "by an ulp where two branches meet); the oracle checks it on the grids with a 4-ulp allowance. rank monotonicity and "
-               "the rank/quantile consistency bound need unit_ends_tight: without it rank is NOT monotone (c10_rank_mono_refuted, "
+               "by an ulp where two branches meet); the oracle checks it on the grids with a 4-ulp allowance. rank monotonicity (and "
+               "with it cdf monotonicity / pmf non-negativity) needs unit_ends_tight: without it rank is NOT monotone (c10_rank_mono_without_tight_ends_refuted, "
                "known finding tdigest-D17: an image whose first/last centroid has weight 1 but is not min/max; no data set has "
                "such a summary and the in-process algorithm never produces one). td_total / td_minmax are proved for histories "
                "whose merge passes satisfy merge_rel (C15); that each real pass does is checked per run (valid_merge), the "
